@@ -46,6 +46,9 @@ def shapes(tier):
             out.append({"op": "pack_unpack", "n": n, "nonlinear_only": nl_only})
         out.append({"op": "index", "n": n})
         out.append({"op": "reduce", "n": n})
+    # a library whose first column was stored at single precision (the other columns are doubles)
+    out.append({"op": "pack_unpack", "n": 2, "nonlinear_only": True, "P_dtype": "float32"})
+    out.append({"op": "pack_unpack", "n": 1, "nonlinear_only": False, "P_dtype": "float32"})
     # reductions of a table stored in non-default units (the result keeps the table's units)
     out.append({"op": "reduce", "n": 2, "P_unit": "sym", "omega_unit": "deg", "angle_unit": "deg"})
     # call history on one object: times asked for, then M0 / P re-assigned, then asked again
@@ -72,7 +75,7 @@ def _mk_samples(st, shape, n, omega_unit="rad", P_unit="day", angle_unit=None, w
     cells = {}
     for c in COLS:
         cells[c] = [core.real("%s_%d" % (c, i)) for i in range(n)]
-        s[c] = units.Quantity(symnp.SymArray(symnp._obj(cells[c]), symnp._F8), un[c])
+        s[c] = units.Quantity(symnp.SymArray(symnp._obj(cells[c]), symnp._F4 if (c == "P" and shape.get("P_dtype") == "float32") else symnp._F8), un[c])
     for i in range(n):
         core.assume(cells["P"][i] > 0)
     return s, cells, un, tref
@@ -252,7 +255,12 @@ def run_shape(shape, tier):
                     # without explicit units: nonlinear columns in internal units, others as stored
                     n2 = list(ou2.keys())
                     cl.append(z3.BoolVal(n2 == exp_names))
-                sink.check(path, "pack_unpack", core.SB(z3.And(cl)), site="pack/unpack", describe=desc)
+                pref = []
+                if shape.get("P_dtype"):
+                    # candidate inputs that a single-precision store cannot hold exactly
+                    for k, c in enumerate(COLS):
+                        pref += [L(x) == z3.RealVal("%d/%d" % (k + i + 1, 3 * (k + i) + 7)) for i, x in enumerate(cells[c])]
+                sink.check(path, "pack_unpack", core.SB(z3.And(cl)), site="pack/unpack", describe=desc, prefer=pref)
             elif op == "index":
                 outs, col = out
                 cl = [z3.BoolVal(col is s.tbl["P"])]
@@ -331,6 +339,8 @@ def replay(cand):
         raw[c] = np.array([f(x) for x in m[c]], dtype=float)
         if c == "P":
             raw[c] = np.abs(raw[c]) + (raw[c] == 0)
+            if shape.get("P_dtype") == "float32":
+                raw[c] = raw[c].astype(np.float32)
         s[c] = raw[c] * un[c]
     bad = []
 
@@ -379,9 +389,11 @@ def replay(cand):
                 bad.append("names %s / %s, expected %s" % (list(ou.keys()), back.tbl.colnames, names))
             else:
                 for j, c in enumerate(names):
-                    if not np.allclose(packed[:, j], (raw[c] * un[c]).to_value(ou[c]), rtol=1e-12):
+                    # a column that was stored at single precision is converted at single precision by numpy itself
+                    rtol = 2e-6 if (c == "P" and shape.get("P_dtype") == "float32") else 1e-12
+                    if not np.allclose(packed[:, j], (raw[c] * un[c]).to_value(ou[c]), rtol=rtol):
                         bad.append("packed column %s not in requested unit" % c)
-                    if not np.allclose(back[c].to_value(un[c]), raw[c], rtol=1e-12):
+                    if not np.allclose(back[c].to_value(un[c]), raw[c], rtol=rtol):
                         bad.append("pack->unpack changed %s" % c)
             meta_ok(back, "unpack")
         elif op == "index":
